@@ -120,7 +120,7 @@ func C09(c *core.Ctx, replay string) {
 			for i, b := range behs {
 				nw := 0
 				for _, s := range b.Tr {
-					if s.Op == "PutObject" || s.Op == "CopyObject" || s.Op == "DeleteObject" {
+					if s.Op == "PutObject" || s.Op == "CopyObject" || s.Op == "CopyObjectVersion" || s.Op == "DeleteObject" {
 						nw++
 					}
 				}
